@@ -886,8 +886,12 @@ class Flattener(object):
         i = 0
         while i < len(out):
             s = out[i]
-            if isinstance(s, ast.Assign) and len(s.targets) == 1 and isinstance(s.targets[0], ast.Name) and self._is_generator_call(s.value) \
-                    and all(_pure(a) for a in s.value.args) and all(_pure(k.value) for k in s.value.keywords):
+            lazy_call = isinstance(s, ast.Assign) and len(s.targets) == 1 and isinstance(s.targets[0], ast.Name) and \
+                self._is_generator_call(s.value) and all(_pure(a) for a in s.value.args) and all(_pure(k.value) for k in s.value.keywords)
+            # a generator expression evaluates only its outermost iterable when it is created: a plain name there is pure
+            lazy_exp = isinstance(s, ast.Assign) and len(s.targets) == 1 and isinstance(s.targets[0], ast.Name) and \
+                isinstance(s.value, ast.GeneratorExp) and len(s.value.generators) == 1 and isinstance(s.value.generators[0].iter, ast.Name)
+            if lazy_call or lazy_exp:
                 tmp = s.targets[0].id
                 uses = [n for r_ in out[i + 1:] for n in ast.walk(r_) if isinstance(n, ast.Name) and n.id == tmp]
                 names = {n.id for n in ast.walk(s.value) if isinstance(n, ast.Name)}
@@ -1403,6 +1407,13 @@ class Flattener(object):
 
             def visit_Call(self, node):
                 self.generic_visit(node)
+                # operator.contains(a, b) is `b in a`; operator.getitem(a, b) is `a[b]`
+                if isinstance(node.func, ast.Attribute) and isinstance(node.func.value, ast.Name) and node.func.value.id == 'operator' and \
+                        len(node.args) == 2 and not node.keywords and node.func.attr in ('contains', 'getitem'):
+                    self.n += 1
+                    if node.func.attr == 'contains':
+                        return ast.copy_location(ast.Compare(left=node.args[1], ops=[ast.In()], comparators=[node.args[0]]), node)
+                    return ast.copy_location(ast.Subscript(value=node.args[0], slice=node.args[1], ctx=ast.Load()), node)
                 if isinstance(node.func, ast.Name) and node.func.id == 'getattr' and len(node.args) == 2 and not node.keywords and \
                         isinstance(node.args[1], ast.Constant) and isinstance(node.args[1].value, str) and node.args[1].value.isidentifier():
                     self.n += 1
@@ -1411,6 +1422,14 @@ class Flattener(object):
         if not isinstance(s, (ast.For, ast.While, ast.If, ast.Try, ast.With, ast.FunctionDef, ast.ClassDef)):
             ga = GA()
             s = ga.visit(s)
+            self.desugared += ga.n
+        elif isinstance(s, (ast.If, ast.While)):
+            ga = GA()
+            s.test = ga.visit(s.test)
+            self.desugared += ga.n
+        elif isinstance(s, ast.For):
+            ga = GA()
+            s.iter = ga.visit(s.iter)
             self.desugared += ga.n
         # self.NAME / cls.NAME bound once, at class level, to a string or number that nothing re-binds: the constant itself
         outer = self
